@@ -72,16 +72,27 @@ def _header(stmt):
 
 class _Tx(ast.NodeTransformer):
 
-    def __init__(self, names, shared, cname='_CORO'):
+    def __init__(self, names, shared, cname='_CORO', auto=()):
         self.names  = names
         self.shared = shared
         self.cname  = cname
+        self.auto   = set(auto)
         self.points = 0
 
     # calls to other coroutine methods
     def visit_Call(self, node):
         self.generic_visit(node)
         f = node.func
+        if isinstance(f, ast.Attribute) and isinstance(f.value, ast.Name) \
+           and f.value.id == 'self' and f.attr in self.auto:
+            # helper pulled in automatically: an instance-level stub wins
+            call = ast.Call(
+                func=ast.Name(id='_coro_dispatch', ctx=ast.Load()),
+                args=[ast.Name(id=self.cname, ctx=ast.Load()),
+                      ast.Constant(value=f.attr),
+                      ast.Name(id='self', ctx=ast.Load())] + node.args,
+                keywords=node.keywords)
+            return ast.YieldFrom(value=call)
         if isinstance(f, ast.Attribute) and isinstance(f.value, ast.Name) \
            and f.value.id == 'self' and f.attr in self.names:
             call = ast.Call(
@@ -171,20 +182,86 @@ def _find(cls, name):
 _N = [0]
 
 
+def _coro_dispatch(coro, name, self, *args, **kwargs):
+    inst = getattr(self, '__dict__', {})
+    if name in inst:
+        return inst[name](*args, **kwargs)     # stubbed on the instance: atomic
+    ret = yield from coro[name](self, *args, **kwargs)
+    return ret
+
+
+def _takes_lock(tree):
+    for w in ast.walk(tree):
+        if isinstance(w, ast.With):
+            for i in w.items:
+                if ast.unparse(i.context_expr).endswith('_lock'):
+                    return True
+    return False
+
+
+def _auto_helpers(cls, names):
+    """
+    Helper methods of radical.pilot reached through `self.x(...)` from the
+    listed methods (transitively) which take a lock: they have to become
+    coroutines as well, or a lock held by a pre-empted coroutine would be
+    taken a second time by sequential code.  This keeps the transformation
+    stable under extract-method refactorings of the real code.
+    """
+    seen, auto, work = set(names), [], list(names)
+    while work:
+        n = work.pop()
+        try:
+            fn, _ = _find(cls, n)
+            fn    = getattr(fn, '__func__', fn)
+            tree  = ast.parse(textwrap.dedent(inspect.getsource(fn)))
+        except Exception:
+            continue
+        for node in ast.walk(tree):
+            if not (isinstance(node, ast.Call)
+                    and isinstance(node.func, ast.Attribute)
+                    and isinstance(node.func.value, ast.Name)
+                    and node.func.value.id == 'self'):
+                continue
+            x = node.func.attr
+            if x in seen:
+                continue
+            seen.add(x)
+            try:
+                g, owner = _find(cls, x)
+            except AttributeError:
+                continue
+            if not inspect.isfunction(g) or \
+               not (owner.__module__ or '').startswith('radical.pilot'):
+                continue
+            try:
+                src = textwrap.dedent(inspect.getsource(g))
+                t   = ast.parse(src)
+            except Exception:
+                continue
+            if 'super()' in src or any(isinstance(y, (ast.Yield, ast.YieldFrom))
+                                       for y in ast.walk(t)):
+                continue
+            if _takes_lock(t):
+                auto.append(x)
+                work.append(x)
+    return auto
+
+
 def make_coros(cls, names, shared):
     """-> ({name: generator function}, info)"""
     coro = {}
     info = {}
     _N[0] += 1
     cname = '_CORO%d' % _N[0]
-    for name in names:
+    auto  = _auto_helpers(cls, names)
+    for name in list(names) + auto:
         fn, owner = _find(cls, name)
         fn   = getattr(fn, '__func__', fn)
         src  = textwrap.dedent(inspect.getsource(fn))
         tree = ast.parse(src)
         fdef = tree.body[0]
         assert isinstance(fdef, ast.FunctionDef) and fdef.name == name
-        tx   = _Tx(set(names), shared, cname)
+        tx   = _Tx(set(names), shared, cname, auto)
         fdef.body = tx._block(fdef.body)
         fdef.decorator_list = []
         # make sure it is a generator even without any yield point
@@ -196,6 +273,7 @@ def make_coros(cls, names, shared):
         mod = inspect.getmodule(fn)
         glb = mod.__dict__           # module globals: later patches are seen
         glb[cname] = coro
+        glb['_coro_dispatch'] = _coro_dispatch
         # zero-arg super() needs a class cell; rewrite not supported
         assert 'super()' not in ast.unparse(fdef), \
                '%s uses super(): not supported' % name
@@ -205,6 +283,7 @@ def make_coros(cls, names, shared):
         exec(code, glb, ns)
         coro[name] = ns['_coro_' + name]
         info[name] = {'owner': owner.__name__, 'yield_points': tx.points,
+                      'auto': name in auto,
                       'source': ast.unparse(tree)}
     return coro, info
 
